@@ -751,14 +751,21 @@ def glue_expected(triple):
 
 def stream_glue(ctx, thorough):
     import cooler
-    path, _ = make_cooler(ctx)
-    clr = cooler.Cooler(path)
+    setup = guarded(lambda: cooler.Cooler(make_cooler(ctx)[0]), limit=60)
+    if setup[0] != "ok":
+        # not a verdict about region strings by itself: the obligation "glue observed" is broken
+        ctx.broke(f"glue stream: creating/opening the scratch cooler failed with {setup[0]} (create_cooler/Cooler use parse_cooler_uri)")
+        return 0
+    clr = setup[1]
     cs = dict(GLUE_CS)
     regs = ["chr1", "chr1:0-50", "chr1:0-51", "chr1:10-20", "chr1:1-49", "chr1:0.01k-0.02k", "chr1:0.011k-0.029k", "chr1:0.0101k-0.02k", "chr1:10-",
             "chr1:49-", "chr1:51-", "chr1:-20", "chr1:20-10", "chr1:0,0,1,0-0,0,2,0", "chr1:0.00001M-0.00005M", "chr1:0.00001M-0.00006M",
             "chr-2.x", "chr-2.x:0-33", "chr-2.x:3-33", "chr-2.x:0-34", "chr-2.x:30-", "chr-2.x:0.03k-", "chr-2.x:0.033k-0.033k",
             "a b", "a b:5-15", " a b :5-15", "a b:0-20", "a b:0-21", "a  b:0-20", "ab:0-20", "7", "7:0-10", "7:1-9", "7:0-11", "07:0-10",
             "chr2", "", ":1-2", "chr1:", "chr1:x-y", "chr1:1kk-2", "chr1:1-2-3", "chr1:5-25:junk", "CHR1:0-10", "chr1:10-20 ", "chr1: 10 - 20"]
+    for s in (0, 5, 10, 15, 20, 21):          # small grid on the chromosome whose name has an inner blank
+        for e in (0, 5, 10, 15, 20, 21):
+            regs.append(f"a b:{s}-{e}")
     if thorough:
         for nm, L in GLUE_CS:
             for s in range(0, L + 2, 3):
@@ -789,13 +796,41 @@ def stream_glue(ctx, thorough):
             elif got[0] != "ok":
                 ctx.fail(case, {"got": jsonable(got), "expected": "accepted (empty range)"}, None)
     tally.flush()
+    # command line: `cooler dump --join -r REGION` goes through the same parser; every bin of the scratch cooler has
+    # a diagonal pixel, so the distinct (chrom1, start1, end1) of the dumped pixels are the bins of the region
+    from click.testing import CliRunner
+    from cooler.cli import cli
+    runner = CliRunner()
+    t3 = Tally(ctx, "glue-cli")
+    for r in ["chr1:0.01k-0.03k", "chr1:10-", "chr1", "a b:5-15", " a b :5-15", "chr-2.x:3-33", "chr-2.x:0-34", "chr1:20-10", "chr2", "chr1:1kk-2",
+              "chr1:1.001k-", "7:0-0.01k", "chr1:0-0.050k", "chr1:0-0.051k", "chr1:1,0-2,0"]:
+        res = guarded(lambda rr: runner.invoke(cli, ["dump", "--join", "-r", rr, clr.filename]), r, limit=60)
+        case = {"fn": "cooler dump -r", "s": r}
+        t3.add(r, True)
+        if res[0] != "ok":
+            got = (res[0],)
+        elif res[1].exit_code != 0:
+            got = ("refused",) if isinstance(res[1].exception, ValueError) else ("exit", res[1].exit_code, type(res[1].exception).__name__)
+        else:
+            rows = [ln.split("\t") for ln in res[1].output.strip().splitlines() if ln]
+            got = ("ok", list(dict.fromkeys((x[0], int(x[1]), int(x[2])) for x in rows)))
+        exp_parse = expected_parse_region(r, cs)
+        if exp_parse is None:
+            continue
+        if exp_parse[0] == "refuse":
+            if got != ("refused",):
+                ctx.fail(case, {"got": jsonable(got), "expected": "refused: " + exp_parse[1]}, None)
+        elif exp_parse[1][1] < exp_parse[1][2]:
+            if got != ("ok", glue_expected(exp_parse[1])[1]):
+                ctx.fail(case, {"got": jsonable(got), "expected": jsonable(glue_expected(exp_parse[1])[1])}, None)
+    t3.flush()
     # two-region fetch: each region string is parsed on its own
     mf = guarded(lambda: clr.matrix(balance=False).fetch("chr1:0.01k-0.03k", "a b:5-20").shape)
     case = {"fn": "Cooler.fetch2", "s": "chr1:0.01k-0.03k", "s2": "a b:5-20"}
     ctx.case(case, kind="glue")
     if mf != ("ok", (2, 2)):
         ctx.fail(case, {"got": jsonable(mf), "expected": [2, 2]}, None)
-    return tally.n + 1
+    return tally.n + t3.n + 1
 
 
 # ------------------------------------------------------------------ entry points
@@ -858,10 +893,29 @@ def replay(ctx, case):
     if fn == "parse_cooler_uri(pair)":
         r1, r2 = fast(util.parse_cooler_uri, case["s"]), fast(util.parse_cooler_uri, case["s2"])
         return r1 == r2 and r1[0] == "ok"
+    if fn == "cooler dump -r":
+        import cooler
+        from click.testing import CliRunner
+        from cooler.cli import cli
+        setup = guarded(lambda: make_cooler(ctx)[0], limit=60)
+        if setup[0] != "ok":
+            return False
+        res = CliRunner().invoke(cli, ["dump", "--join", "-r", case["s"], setup[1]])
+        exp = expected_parse_region(case["s"], dict(GLUE_CS))
+        if exp is None:
+            return True
+        if exp[0] == "refuse":
+            return res.exit_code != 0 and isinstance(res.exception, ValueError)
+        if res.exit_code != 0:
+            return False
+        rows = list(dict.fromkeys((x.split("\t")[0], int(x.split("\t")[1]), int(x.split("\t")[2])) for x in res.output.strip().splitlines() if x))
+        return exp[1][1] >= exp[1][2] or rows == glue_expected(exp[1])[1]
     if fn in ("Cooler.fetch", "Cooler.fetch2"):
         import cooler
-        path, _ = make_cooler(ctx)
-        clr = cooler.Cooler(path)
+        setup = guarded(lambda: cooler.Cooler(make_cooler(ctx)[0]), limit=60)
+        if setup[0] != "ok":
+            return False
+        clr = setup[1]
         if fn == "Cooler.fetch2":
             return guarded(lambda: clr.matrix(balance=False).fetch(case["s"], case["s2"]).shape) == ("ok", (2, 2))
         got = glue_observe(clr, case["s"])
